@@ -193,12 +193,20 @@ func poolChild(a Args) {
 					n := 1 + rng.Intn(3)
 					cmd = MCmd{Op: "get"}
 					req := common.GetRequest{}
+					// every third multi-key get is shaped like the text parser's: opaque 0 and not quiet for
+					// every key, so that repeated keys are indistinguishable but for their number
+					textlike := rng.Intn(3) == 0
 					for j := 0; j < n; j++ {
 						kk := keys[rng.Intn(len(keys))]
 						cmd.Keys = append(cmd.Keys, kk)
 						req.Keys = append(req.Keys, append([]byte(nil), w.Key(kk)...))
-						req.Opaques = append(req.Opaques, uint32(1000*i+j))
 						q := rng.Intn(2) == 0
+						if textlike {
+							req.Opaques = append(req.Opaques, 0)
+							q = false
+						} else {
+							req.Opaques = append(req.Opaques, uint32(1000*i+j))
+						}
 						req.Quiet = append(req.Quiet, q)
 						cmd.Quiet = append(cmd.Quiet, q)
 					}
@@ -215,6 +223,16 @@ func poolChild(a Args) {
 								continue
 							}
 							j := int(r.Opaque) - 1000*i
+							if textlike {
+								// attribute to the first position with this key that has no response yet
+								j = -1
+								for x := 0; x < n; x++ {
+									if seen[x] == 0 && string(r.Key) == string(req.Keys[x]) {
+										j = x
+										break
+									}
+								}
+							}
 							if j < 0 || j >= n || string(r.Key) != string(req.Keys[j]) {
 								extra++
 								continue
